@@ -228,6 +228,26 @@ func randomPath(g *sg.G, w *world) []string {
 func genCase(t *rapid.T) Case {
 	g := &sg.G{T: t, Cfg: sg.GenCfg{MaxMods: 2, NoFeatures: true, NoWhenMust: true, NoRpcs: true}}
 	c := Case{Mods: g.GenSet()}
+	// status on some nodes, choices and cases included (weakening only): a deprecated or obsolete node is a node of the
+	// schema like any other
+	var st func(kids []*sg.Node, above string)
+	st = func(kids []*sg.Node, above string) {
+		for _, k := range kids {
+			s := above
+			if k.Kind != "uses" && g.Chance(1, 6, "status") {
+				opts := []string{"deprecated", "obsolete"}
+				if above == "obsolete" {
+					opts = []string{"obsolete"}
+				}
+				k.Status = opts[g.Pick(len(opts), "whichstatus")]
+				s = k.Status
+			}
+			st(k.Kids, s)
+		}
+	}
+	for _, m := range c.Mods {
+		st(m.Nodes, "")
+	}
 	w := newWorld(c.Mods)
 	if w == nil {
 		return c
